@@ -220,3 +220,8 @@ package domain
 //@   modifies nothing
 //@   loop 0 invariant len(pointers) == len(b)/26
 //@   loop 0 invariant forall j int :: 0 <= j && j < __ri(0) ==> encodedAt(b, j*26, pointers[j])
+//@ # a slot holds at most one pointer: with encode and decode both specified by encodedAt this is
+//@ # decode(encode(0, ptrs)) == ptrs, slot by slot (the answer is the same after close and reopen)
+//@ lemma encodedAtInjective(b []byte, off int, p pointer, q pointer)
+//@   requires encodedAt(b, off, p) && encodedAt(b, off, q) && p.Start >= 0 && p.End >= 0 && q.Start >= 0 && q.End >= 0
+//@   ensures  p == q
